@@ -44,7 +44,9 @@ CHECKS = {
         text="Theorems: after a kill at any program point or after any prefix of the ordered single-ref operations the "
              "state ref is the old, the external-modification or the new state; no ref holds a foreign value; the "
              "branch moves only after the state ref. Real crashes (SIGKILL at every point, every ref-edit prefix) are "
-             "followed by fsck, stg series, stg repair, stg reset --hard and the C01/C02 oracles."),
+             "followed by fsck, stg series, stg repair, stg reset --hard and the C01/C02 oracles; the `stg branch` "
+             "sub-commands, which write refs outside any transaction, are killed just before and just after every "
+             "git invocation (no stack may be stranded under a branch that does not exist)."),
     "C05": dict(category="proof", design_ref="DESIGN.md section 4/C05", note=HIST_NOTE, technique=HIST_TECH,
         text="Theorems over the abstract log: undo -n k = k-th state of the effective timeline, = k single undos; "
              "redo -n k = k-th entry of the redo stack, refused after any other operation; find_undo_state over the "
@@ -80,7 +82,10 @@ CHECKS = {
              "keep their bytes exactly; every decodable message outside the class of F40 is shown by git with the same "
              "text after the re-creation (UTF-8 round trip proved arithmetically); an unknown label refuses; F40 (latin-1 "
              "label with bytes 0x80-0x9f: encoding_rs decodes windows-1252) is proved to break it and is a known "
-             "finding. Re-creation correspondence: generated commits are re-created by the real stg push under each "
+             "finding. The author side (recreate_name: author_strict + the encoding written): names are kept for "
+             "unset / UTF-8 commit encodings and, since fix F44, written in a configured single-byte encoding so that "
+             "git shows the same name (C08_author_kept, C08_author_encoded_with_commit_encoding). "
+             "Re-creation correspondence: generated commits (message AND author name in the declared encoding) are re-created by the real stg push under each "
              "commit encoding and refusal, header, bytes and git's decoding are compared with the extracted model. "
              "End-to-end direct oracle on commits with legacy encodings (ISO-8859-1, windows-1252, valid-UTF-8 "
              "bytes under a declared single-byte encoding), odd identities, time zones and git notes through every "
@@ -122,7 +127,9 @@ CHECKS = {
         text="Theorems: with a compare-and-swap on the state commit seen at LOAD time no interleaving loses an update "
              "(all 20 schedules, symbolic values); the log stays linear under every schedule; with the re-read value "
              "that execute() really uses a losing schedule exists (C11_cas_on_reread_loses_updates = known finding "
-             "F9). All 20 interleavings are realised on the real stg with pause points and compared with the model."),
+             "F9). All 20 interleavings are realised on the real stg with pause points and compared with the model; the "
+             "other publication path (log_external_mods on a branch moved by plain git) is raced separately: one "
+             "process held between reading and publishing the state ref while another completes (direct oracle)."),
     "C12": dict(category="proof", design_ref="DESIGN.md section 4/C12", note=HIST_NOTE, technique=HIST_TECH,
         text="Theorems: committing bottom-most patches creates no object and keeps the head; uncommit never moves "
              "branch, index or work tree and creates no commit; the downward walk refuses merge/root commits and finds "
@@ -203,7 +210,9 @@ CHECKS = {
         text="Theorems: one SIGINT before publication leaves the refs unchanged; inside the critical section the "
              "publication completes (refs, index, work tree of the completed command) with status 130; a roll-back "
              "is never reported; source tie: shape of signal::critical and of the handler. Fix F12 modelled. SIGINT is "
-             "delivered at every program point of every corpus command."),
+             "delivered at every program point of every corpus command; a process-group interrupt that also kills the "
+             "git child writing the signed state commit inside the critical section is delivered at every git "
+             "invocation of pop / goto (direct oracle: refs, index and work tree all old or all new)."),
     "C20": dict(category="proof", design_ref="DESIGN.md section 4/C20", note=HIST_NOTE, technique=
         "Coq proof (no-panic by per-operation preconditions) + regenerated panic-site classification + "
         "history-level differential testing + command-line fuzzing (search)",
